@@ -412,13 +412,14 @@ pub mod prelude {
     { s.iter().position(f) }
 
     // std::str::from_utf8: succeeds exactly on valid UTF-8 and then denotes the same bytes
+    #[verifier::opaque]
     pub open spec fn valid_utf8(b: Seq<u8>) -> bool { vstd::utf8::valid_utf8(b) }
     pub assume_specification<'a>[ std::str::from_utf8 ](b: &'a [u8]) -> (r: Result<&'a str, std::str::Utf8Error>)
         ensures r is Ok == valid_utf8(b@), r matches Ok(s) ==> sb(s) == b@;
     // every &str holds valid UTF-8
     #[verifier::external_body]
     pub broadcast proof fn axiom_str_valid_utf8(a: &str)
-        ensures valid_utf8(#[trigger] sb(a))
+        ensures valid_utf8(#[trigger] sb(a)), vstd::utf8::valid_utf8(sb(a))
     {}
 
     // R13: the split iterator of v1::parse_line.  `Parts::new(h, n)` is
@@ -460,8 +461,16 @@ pub mod prelude {
     }
 
     pub broadcast group prelude_axioms {
-        axiom_v4_octets_len, axiom_v6_octets_len, axiom_v4_ext, axiom_v6_ext, axiom_cow_as_ref_bytes, axiom_cow_deref_bytes, lemma_bitor_comm_u8,
-        axiom_str_ext_bytes, axiom_str_ext_chars, axiom_str_len_bound, axiom_pat_starts_str, axiom_pat_ends_str, axiom_pat_starts_char, axiom_pat_find_char, axiom_str_valid_utf8, axiom_cow_deref_str, lemma_first_index_bounds, axiom_u16_parse_empty, axiom_boundary_ascii, axiom_boundary_after_ascii, axiom_boundary_ends, axiom_cow_str_valid,
+        axiom_v4_octets_len, axiom_v6_octets_len, axiom_v4_ext, axiom_v6_ext,
+        axiom_cow_as_ref_bytes, axiom_cow_deref_bytes, lemma_bitor_comm_u8,
+    }
+    pub broadcast group prelude_str_axioms {
+        axiom_str_ext_bytes, axiom_str_ext_chars, axiom_str_len_bound, axiom_pat_starts_str, axiom_pat_ends_str,
+        axiom_pat_starts_char, axiom_pat_find_char, axiom_cow_deref_str, lemma_first_index_bounds,
+        axiom_u16_parse_empty,
+    }
+    pub broadcast group prelude_utf8_axioms {
+        axiom_boundary_ascii, axiom_boundary_after_ascii, axiom_boundary_ends, axiom_cow_str_valid, axiom_str_valid_utf8,
     }
     }
 }
